@@ -6,7 +6,7 @@
 From Coq Require Import Permutation.
 From Avfs Require Import Base BaseProofs PathModel PathSpec PathProofs PathCleanProofs PathIterProofs.
 From Avfs Require Import MemFS MemFile World Posix Inv InvPath InvConseq.
-From Avfs Require Import WalkBridge WalkSym WalkBudget WalkReadlink WalkRel StepEq WalkInv WalkEval StepRename.
+From Avfs Require Import WalkBridge WalkSym WalkBudget WalkReadlink WalkRel StepEq WalkInv WalkEval StepRename DacLemmas.
 
 (* ---- strings ------------------------------------------------------------------------------------------------------------ *)
 Lemma is_prefix_app_same (a b c : str) : is_prefix (a ++ b) (a ++ c) = is_prefix b c.
@@ -148,7 +148,8 @@ Proof.
     assert (Hrp : kperm (f_heap s) (v_root (sv_view sv)) 1 (v_user (sv_view sv)) = true)
       by (apply (admin_kperm s sv _ 1 H); apply node_is_dir_valid; exact Hrd).
     rewrite O1, N1, NV2, O5, O2, N3, OV1, NV1, N2. cbn [is_file_exists is_not_exist negb andb orb].
-    rewrite !(admin_perm_on s sv _ _ H) by assumption. cbn [negb andb]. rewrite andb_false_r.
+    rewrite !(admin_perm_on s sv _ _ H) by assumption. rewrite !(sticky_admin _ _ _ _ (sh_admin _ _ H)).
+    cbn [negb andb]. rewrite !andb_false_r.
     rewrite Fo1, Fn1, Hsd. cbn [negb andb].
     (* the two tests *)
     assert (Hwoc : dwalk (f_heap s) (v_user (sv_view sv)) (v_root (sv_view sv)) (do ++ [clo]) = Some oc)
